@@ -564,3 +564,70 @@ func (i *interpreter) structToGeneric(fr *frame, u *types.Struct, st structure, 
 	}
 	return ""
 }
+
+// (*json.Decoder).Decode on a concrete stream: the remaining input is drained
+// from the underlying reader, the first JSON value is decoded natively and the
+// consumed length is recorded so that the real InputOffset() works.
+func init() {
+	intrinsics["(*encoding/json.Decoder).Decode"] = func(fr *frame, args []value) value {
+		i := fr.i
+		dp := args[0].(*value)
+		st := (*dp).(structure)
+		dt := mustDeref(fr.fn.Signature.Recv().Type()).Underlying().(*types.Struct)
+		field := func(name string) int {
+			for k := 0; k < dt.NumFields(); k++ {
+				if dt.Field(k).Name() == name {
+					return k
+				}
+			}
+			panic(engErr("json.Decoder has no field %s", name))
+		}
+		// pending input: what earlier Decode calls left over, else drain the reader
+		pend, _ := st[field("buf")].([]value)
+		if pend == nil {
+			r := st[field("r")].(iface)
+			var all []value
+			for n := 0; n < 10000; n++ {
+				buf := make([]value, 512)
+				for k := range buf {
+					buf[k] = uint8(0)
+				}
+				res, ok := i.callMethod(fr, r.t, r.v, "Read", buf)
+				if !ok {
+					panic(engErr("json.Decoder: reader without Read"))
+				}
+				tup := res.(tuple)
+				cnt := int(asInt64(tup[0]))
+				all = append(all, buf[:cnt]...)
+				if e := tup[1].(iface); e.t != nil || cnt == 0 {
+					break
+				}
+			}
+			pend = all
+		}
+		data, conc := mkStr(pend).(string)
+		if !conc {
+			panic(engErr("json.Decoder.Decode on symbolic bytes (cut this call in the harness)"))
+		}
+		consumedBefore := asInt64(st[field("scanned")])
+		dec := json.NewDecoder(strings.NewReader(data))
+		var gen interface{}
+		if err := dec.Decode(&gen); err != nil {
+			return i.mkError(err.Error())
+		}
+		off := dec.InputOffset()
+		st[field("buf")] = bytesOf(data[off:])
+		st[field("scanp")] = int(0)
+		st[field("scanned")] = consumedBefore + off
+		target := args[1].(iface)
+		pt, ok := target.t.Underlying().(*types.Pointer)
+		p, _ := target.v.(*value)
+		if !ok || p == nil {
+			return i.mkError("json: Unmarshal(non-pointer)")
+		}
+		if e := i.decodeInto(pt.Elem(), p, gen); e != "" {
+			return i.mkError("json: " + e)
+		}
+		return iface{}
+	}
+}
